@@ -161,6 +161,12 @@ func (m *impl) exec(line string) string {
 		return "n=" + strconv.Itoa(n) + sb.String()
 	case w[0] == "shape" && len(w) == 1:
 		return shapeOf(m.t)
+	case w[0] == "fork" && len(w) == 1:
+		// retain a VALUE COPY of the trie object: it shares every node with the working trie, so it
+		// keeps its content only if insert/delete/tryGet/hash never modify a reachable node in place
+		cp := *m.t
+		m.snaps = append(m.snaps, &cp)
+		return "ok"
 	case w[0] == "snap" && len(w) == 1:
 		// retain the current trie object and continue on a new one opened at its root (what
 		// storageDB.CopyTrie does); both share the NodeDatabase
@@ -332,7 +338,7 @@ func main() {
 			}
 			ns := 0
 			for _, l := range seq {
-				if l == "snap" {
+				if l == "snap" || l == "fork" {
 					do("shash " + strconv.Itoa(ns))
 					do("sget " + strconv.Itoa(ns) + " " + hx.Hex(smallKeys[ns%len(smallKeys)]))
 					ns++
